@@ -43,7 +43,11 @@ def path(ex, t):
         st['stage'] = 'done'
         return st
     st['stage'] = 'spec-write'
-    text = Writer(ex, lambda n: ex.pick(n) if n > 1 else 0, nl=t.get('nl', b'\n')).value(v)
+    w = Writer(ex, lambda n: ex.pick(n) if n > 1 else 0, nl=t.get('nl', b'\n'))
+    # the \uXXXX spelling of a multi-byte char multiplies the paths of a shape by ~30: in the thorough tier it is kept for the
+    # shapes with at most two symbolic chars
+    if not QUICK[0] and t['shape'].rstrip('0123456789') in ('str', 'uri', 'refdis', 'xstr-v') and t['shape'][-1:] == '3': w._u_spelled = True
+    text = w.value(v)
     if zc.build.__module__ and v.variant == ex.prog.variant_index(v.ty, 'Grid'): text = text + list(t.get('nl', b'\n'))
     st['text'] = text; st['stage'] = 'decode'
     d, rd = zinc.parse_value(ex, list(text))
